@@ -215,10 +215,10 @@ fn plans(thorough: bool) -> Vec<Plan> {
     p.push(Plan { mt: "110", nseq: 3, dims: (0..3).map(|k| Dim { name: format!("B{k}.32"), options: vec![("32A-USD".into(), vec![Edit { kind: K::B, seq: k, tag: "32A".into(), items: vec![("32A".into(), "240719USD100,00".into())] }]), ("32B-USD".into(), vec![Edit { kind: K::B, seq: k, tag: "32A".into(), items: vec![("32B".into(), "USD100,00".into())] }]), ("32A-EUR".into(), vec![Edit { kind: K::B, seq: k, tag: "32A".into(), items: vec![("32A".into(), "240719EUR100,00".into())] }])] }).collect(), clusters: vec![vec!["B0.32", "B1.32", "B2.32"]] });
     {
         // whole amounts and cent amounts whose binary sums are inexact (1,15 + 2,30; 19,99 + 0,01; 0,57 + 0,58)
-        let mut dims = vec![content_dim("19", K::A, 0, "19", &[("sum", Some("300,00")), ("other", Some("299,00")), ("sum2", Some("400,00")), ("203,45", Some("203,45")), ("120,00", Some("120,00")), ("101,15", Some("101,15")), ("101,16", Some("101,16"))])];
+        let mut dims = vec![content_dim("19", K::A, 0, "19", &[("sum", Some("300,00")), ("other", Some("299,00")), ("sum2", Some("400,00")), ("203,45", Some("203,45")), ("120,00", Some("120,00")), ("101,15", Some("101,15")), ("101,16", Some("101,16")), ("110,001", Some("110,001")), ("110,004", Some("110,004"))])];
         let cents: [&[(&str, Option<&str>)]; 3] = [
-            &[("USD100", Some("USD100,00")), ("USD200", Some("USD200,00")), ("EUR100", Some("EUR100,00")), ("USD1,15", Some("USD1,15")), ("USD19,99", Some("USD19,99")), ("USD0,57", Some("USD0,57"))],
-            &[("USD100", Some("USD100,00")), ("USD200", Some("USD200,00")), ("EUR100", Some("EUR100,00")), ("USD2,30", Some("USD2,30")), ("USD0,01", Some("USD0,01")), ("USD0,58", Some("USD0,58"))],
+            &[("USD100", Some("USD100,00")), ("USD200", Some("USD200,00")), ("EUR100", Some("EUR100,00")), ("USD1,15", Some("USD1,15")), ("USD19,99", Some("USD19,99")), ("USD0,57", Some("USD0,57")), ("KWD5,000", Some("KWD5,000"))],
+            &[("USD100", Some("USD100,00")), ("USD200", Some("USD200,00")), ("EUR100", Some("EUR100,00")), ("USD2,30", Some("USD2,30")), ("USD0,01", Some("USD0,01")), ("USD0,58", Some("USD0,58")), ("KWD5,001", Some("KWD5,001"))],
             &[("USD100", Some("USD100,00")), ("USD200", Some("USD200,00")), ("EUR100", Some("EUR100,00"))],
         ];
         for k in 0..3usize { dims.push(content_dim(Box::leak(format!("B{k}.32B").into_boxed_str()), K::B, k, "32B", cents[k])); }
